@@ -1326,6 +1326,9 @@ func (p *pipe) DoStream(ctx context.Context, pool *pool, cmd Completed) RedisRes
 	cmds.CompletedCS(cmd).Verify()
 
 	if err := ctx.Err(); err != nil {
+		if p.conn != nil { // a pooled connection must go back to its pool; the placeholder of a cancelled Acquire has none
+			pool.Store(p)
+		}
 		return NewErrorResultStream(err)
 	}
 	state := atomic.LoadInt32(&p.state)
@@ -1375,6 +1378,9 @@ func (p *pipe) DoMultiStream(ctx context.Context, pool *pool, multi ...Completed
 	}
 
 	if err := ctx.Err(); err != nil {
+		if p.conn != nil { // see DoStream
+			pool.Store(p)
+		}
 		return NewErrorResultStream(err)
 	}
 	state := atomic.LoadInt32(&p.state)
